@@ -51,6 +51,8 @@ def py_files(root: str) -> List[str]:
 def failing_keys(mod, root: str):
     from .main import run_rules
     rep, _ = run_rules(mod, root)
+    if rep.errors and not rep.failing():
+        raise AnalysisError("; ".join(rep.errors))
     return {o.key() for o in rep.failing()}, len(rep.obs)
 
 
